@@ -272,9 +272,76 @@ def ravelKernel (coords : List Nat) (expr_tensor : List Nat) : List Nat :=
   coords"""
 
 
+# ---------------------------------------------------------------------------------------------- index dtype of `_ravel`
+
+DTYPE_BITS = {"int8": 8, "int16": 16, "int32": 32, "int64": 64, "uint8": 8, "uint16": 16, "uint32": 32, "uint64": 64}
+CAST_ATTRS = ("astype", "to_dtype", "cast", "asarray", "view")
+
+
+def index_dtype(tree):
+    """(dtype literal of the index ranges `_ravel` creates when the classical backend has no `.dtype` (tracing), list of
+    dtype-changing calls in `_ravel` / `get_at_ravelled` / `update_at_ravelled`, does the branch for backends with `.dtype`
+    take the dtype of a coordinate tensor, lost anchors).  Conservative value: dtype "unknown" (0 bits)."""
+    lost = []
+    fn = find_func(tree, "_ravel")
+    if fn is None:
+        return "unknown", ["?"], False, [("update:index-dtype", "_ravel not found")]
+    # every `classical.arange(...)` must pass `dtype=<variable>`; collect the variables
+    vars_ = set()
+    n_arange = 0
+    for n in ast.walk(fn):
+        if isinstance(n, ast.Call) and (dotted(n.func) or "").endswith(".arange"):
+            n_arange += 1
+            kw = [k for k in n.keywords if k.arg == "dtype"]
+            if len(kw) == 1 and isinstance(kw[0].value, ast.Name):
+                vars_.add(kw[0].value.id)
+            elif len(kw) == 1 and isinstance(kw[0].value, ast.Constant) and isinstance(kw[0].value.value, str):
+                vars_.add("=" + kw[0].value.value)
+            else:
+                lost.append(("update:index-dtype", f"arange without a recognisable dtype=: {ast.unparse(n)}"))
+    if n_arange == 0:
+        lost.append(("update:index-dtype", "no classical.arange call in _ravel"))
+    lits, follows = set(), False
+    for v in vars_:
+        if v.startswith("="):
+            lits.add(v[1:])
+            continue
+        for n in ast.walk(fn):
+            if isinstance(n, ast.Assign) and len(n.targets) == 1 and isinstance(n.targets[0], ast.Name) and n.targets[0].id == v:
+                if isinstance(n.value, ast.Constant) and isinstance(n.value.value, str):
+                    lits.add(n.value.value)
+                elif isinstance(n.value, ast.Call) and (dotted(n.value.func) or "").endswith(".dtype"):
+                    follows = True        # `classical.dtype(coord)`: only for backends that have `.dtype` (not while tracing)
+                else:
+                    lost.append(("update:index-dtype", f"unrecognised assignment {ast.unparse(n)}"))
+    # the literal must be the value of the branch without `classical.dtype`: `if hasattr(classical, "dtype"): … else: v = "<lit>"`
+    guarded = False
+    for n in ast.walk(fn):
+        if isinstance(n, ast.If) and isinstance(n.test, ast.Call) and dotted(n.test.func) == "hasattr" and len(n.test.args) == 2 \
+                and isinstance(n.test.args[1], ast.Constant) and n.test.args[1].value == "dtype":
+            if any(isinstance(m, ast.Assign) and isinstance(m.value, ast.Constant) for m in n.orelse) and \
+                    not any(isinstance(m, ast.Constant) and isinstance(m.value, str) and m.value in DTYPE_BITS for b in n.body for m in ast.walk(b)):
+                guarded = True
+    if follows and not guarded:
+        lost.append(("update:index-dtype", "the dtype of the index ranges is taken from a coordinate tensor without the hasattr(classical, 'dtype') guard"))
+    casts = []
+    for name in ("_ravel", "get_at_ravelled", "update_at_ravelled"):
+        f = find_func(tree, name)
+        if f is None:
+            lost.append(("update:index-dtype", f"{name} not found"))
+            continue
+        for n in ast.walk(f):
+            if isinstance(n, ast.Call) and isinstance(n.func, ast.Attribute) and n.func.attr in CAST_ATTRS:
+                casts.append(f"{name}:{ast.unparse(n.func)}")
+    lit = sorted(lits)[0] if len(lits) == 1 and not lost else "unknown"
+    if len(lits) != 1:
+        lost.append(("update:index-dtype", f"{len(lits)} dtype literals for the index ranges: {sorted(lits)}"))
+    return lit, casts, follows, lost
+
+
 # ---------------------------------------------------------------------------------------------- rendering
 
-def render(regs, kernel_text):
+def render(regs, kernel_text, dtype_lit="unknown", casts=("?",)):
     b = {op: bool(regs.get(op, ("unknown", False))[1]) for op in OPS}
     p = {op: regs.get(op, ("unknown", False))[0] for op in OPS}
     lines = ["import EinxModel.Update.Model",
@@ -292,6 +359,13 @@ def render(regs, kernel_text):
     lines.append("")
     lines.append('def opName : Mode → String | .set => "set_at" | .add => "add_at" | .sub => "subtract_at"')
     lines.append('def primOf : String → Prim | "put" => .put | "add.at" => .addAt | "subtract.at" => .subAt | _ => .unknown')
+    lines.append("")
+    lines.append("/-- dtype of the index ranges `_ravel` creates (`classical.arange(axis.value, dtype=coord_dtype)`) when the classical backend has")
+    lines.append("no `.dtype` (every traced call): the literal of the `else` branch; its width in bits (0 = not recognised). -/")
+    lines.append(f"def arangeDtype : String := {lean_str(dtype_lit)}")
+    lines.append(f"def arangeDtypeBits : Nat := {DTYPE_BITS.get(dtype_lit, 0)}")
+    lines.append("/-- dtype-changing calls (`astype`, …) inside `_ravel` / `get_at_ravelled` / `update_at_ravelled`. -/")
+    lines.append("def ravelCasts : List String := [" + ", ".join(lean_str(c) for c in casts) + "]")
     lines.append("")
     lines.append("/-- The lowering as the source tree defines it now. -/")
     lines.append("def updateLowering : Lowering :=")
@@ -320,7 +394,14 @@ def extract():
         kernel = KERNEL_FALLBACK
         kernel_ok = False
         lost.append(("update:_ravel-kernel", str(e)))
-    facts = {"broadcasts": {op: bool(regs.get(op, ("unknown", False))[1]) for op in OPS},
+    try:
+        dlit, casts, follows, l3 = index_dtype(parse(FILE_DN))
+    except Exception as e:      # conservative
+        dlit, casts, follows, l3 = "unknown", ["?"], False, [("update:index-dtype", f"{type(e).__name__}: {e}")]
+    lost += l3
+    facts = {"arange_dtype": dlit, "arange_dtype_wide": DTYPE_BITS.get(dlit, 0) >= 32 and not casts, "ravel_casts": list(casts),
+             "index_dtype_follows_coordinates_for_backends_with_dtype": follows,
+             "broadcasts": {op: bool(regs.get(op, ("unknown", False))[1]) for op in OPS},
              "primitive": {op: regs.get(op, ("unknown", False))[0] for op in OPS},
              "wrapper_ok": ok, "kernel_translated": kernel_ok, "kernel": kernel}
-    return render(regs, kernel), facts, lost
+    return render(regs, kernel, dlit, casts), facts, lost
